@@ -159,6 +159,7 @@ func (dp *DPoVP) InsertBlock(rawBlock *types.Block) (*types.Block, error) {
 
 	dp.chainLock.Lock()
 	defer dp.chainLock.Unlock()
+	verifhook.Yield("consensus.InsertBlock:holding-chain-lock")
 	log.Debug("🎁 Start insert block to chain", "block", rawBlock.ShortString(), "parent", rawBlock.ParentHash())
 
 	// verify and create a new block witch filled by transaction products
@@ -427,6 +428,7 @@ func (dp *DPoVP) VerifyAndSeal(block *types.Block) (*types.Block, error) {
 func (dp *DPoVP) InsertConfirms(height uint32, blockHash common.Hash, sigList []types.SignData) error {
 	dp.chainLock.Lock()
 	defer dp.chainLock.Unlock()
+	verifhook.Yield("consensus.InsertConfirms:holding-chain-lock")
 	oldCurrent := dp.CurrentBlock()
 	log.Debug("👍 Start insert confirms", "height", height, "hash", blockHash.Hex()[:16], "sigCount", len(sigList))
 
